@@ -235,6 +235,8 @@ def rexpr(e):
         return "(%s %s %s ist)" % (rexpr(e["l"]), "eine" if tgender(e["t"]) == "f" else "ein", tname(e["t"]))
     if k == "std":
         return "(der Standardwert von %s %s)" % ("einer" if tgender(e["t"]) == "f" else "einem", tname(e["t"]))
+    if k == "size":
+        return "(die Größe von %s %s)" % ("einer" if tgender(e["t"]) == "f" else "einem", tname(e["t"]))
     if k == "list":
         if not e["vals"]:
             return "(eine leere %s)" % tname(TL(e["et"]))
